@@ -330,7 +330,7 @@ CHECKS = {
              "instrument": ["store_message.go", "store_message_queue.go", "group_context.go", "internal/queue"],
              "quick": {"procs": 24, "checks_per_proc": 25}, "thorough": {"procs": 48, "checks_per_proc": 300}},
         ],
-        "rule": "one case = 2-3 real devices of a multi-member group (optionally two devices of one member) that activate their group "
+        "rule": "one case = 2-3 real devices of a multi-member group (optionally two devices of one member; precomputed-key window of the stores drawn from {100,1,2,3}) that activate their group "
                 "context and send 1-8 messages at seeded points while the simulator chooses every delivery of entries and chain-key "
                 "announcements (order, batching, drops, duplicates, late connection), then anti-entropy to a fixpoint; part C additionally "
                 "interleaves the goroutines of the message pipeline at every instrumented lock/unlock/select with the seeded "
